@@ -319,8 +319,8 @@ def run_property(prop, tier, groups, required_covers=None, assumptions=None, bou
     }
     if notes:
         ev["coverage"]["notes"] = notes
-    os.makedirs(os.path.join(driver.VERIF, "evidence"), exist_ok=True)
-    json.dump(ev, open(os.path.join(driver.VERIF, "evidence", prop + ".json"), "w"), indent=1, sort_keys=True)
+    os.makedirs(os.path.join(driver.OUT, "evidence"), exist_ok=True)
+    json.dump(ev, open(os.path.join(driver.OUT, "evidence", prop + ".json"), "w"), indent=1, sort_keys=True)
     print("%s %s: paths=%d decisions=%d obligations=%d/%d queries=%d (unknown %d) solver=%.1fs validated=%d wall=%.1fs -> exit %d" % (
         prop, tier, tot["paths"], tot["decisions"], tot["discharged"], tot["obligations"], tot["queries"], tot["q_unknown"],
         tot["solver_time_s"], validated, time.time() - t0, code))
